@@ -757,6 +757,9 @@ func init() {
 			return r
 		}
 		key := "errors.Join:" + strconv.Itoa(int(call.Args[0].Pos()))
+		if s, ok := args[0].(*SliceV); ok && s.Name != "" {
+			key = "errors.Join:" + s.Name // the same slice joins to equi-nil results
+		}
 		if v, ok := ec.st.ghost[key]; ok {
 			return v
 		}
